@@ -209,3 +209,25 @@ def run(tname, b, cc=None, enc=None, strict=True, keep_raw=False, source=None, r
         r.events = [tuple(strip_root(x, root_path) if i in (1,) and e[0] == "E" else x for i, x in enumerate(e)) if e[0] == "E" else (e[0], e[1], tuple((k, strip_root(v, root_path)) for k, v in e[2])) for e in r.events]
         r.details = {k: strip_root(v, root_path) for k, v in r.details.items()}
     return r
+
+
+def bit_rows(event):
+    """the bit rows the pretty printer shows for one attribute-word event, obtained through the public Pretty.unmarshal
+    (first row = the value row, the rest = bit rows); no private helper of the printer is used"""
+    from tpmstream.io.pretty import Pretty
+
+    rows = list(Pretty.unmarshal(iter([event])))
+    return rows[1:]
+
+
+def find_scanner(modname):
+    """the text scanner generator of a front-end module: the generator function defined there that is not `marshal`
+    (found by inspection, so that renaming it does not matter)"""
+    import importlib
+    import inspect
+
+    mod = importlib.import_module(modname)
+    cands = [f for f in vars(mod).values() if inspect.isgeneratorfunction(f) and getattr(f, "__module__", None) == mod.__name__ and f.__name__ != "marshal"]
+    if len(cands) != 1:
+        raise RuntimeError(f"{modname}: expected exactly one scanner generator, found {[f.__name__ for f in cands]}")
+    return cands[0]
